@@ -300,12 +300,38 @@ func material(g *gen.G, ztSeed int64) {
 			}
 		}
 		pool := []byte("BBbbBbNnPpRrQq")
-		for k := 0; k < 2+r.Intn(3); k++ {
-			c := pool[r.Intn(len(pool))]
-			if k < 2 && r.Intn(3) != 0 {
-				c = []byte("Bb")[r.Intn(2)]
+		turnIdx := r.Intn(2)
+		if r.Intn(3) == 0 {
+			// a pawn about to promote with an enemy piece to capture on the last rank next to it (so that a
+			// capturing under-promotion can leave bare minimal material), sometimes one more bishop
+			white := r.Intn(2) == 0
+			file := r.Intn(8)
+			vf := file + 1
+			if file == 7 || (file > 0 && r.Intn(2) == 0) {
+				vf = file - 1
 			}
-			put(c)
+			prow, vrow, pc, victims := 6, 7, byte('P'), "rnbq"
+			if !white {
+				prow, vrow, pc, victims = 1, 0, 'p', "RNBQ"
+				turnIdx = 1
+			} else {
+				turnIdx = 0
+			}
+			if sq[prow*8+file] == 0 && sq[vrow*8+vf] == 0 {
+				sq[prow*8+file] = pc
+				sq[vrow*8+vf] = victims[r.Intn(4)]
+				if r.Intn(3) == 0 {
+					put([]byte("Bb")[r.Intn(2)])
+				}
+			}
+		} else {
+			for k := 0; k < 2+r.Intn(3); k++ {
+				c := pool[r.Intn(len(pool))]
+				if k < 2 && r.Intn(3) != 0 {
+					c = []byte("Bb")[r.Intn(2)]
+				}
+				put(c)
+			}
 		}
 		var sb strings.Builder
 		for rank := 7; rank >= 0; rank-- {
@@ -329,7 +355,7 @@ func material(g *gen.G, ztSeed int64) {
 				sb.WriteByte('/')
 			}
 		}
-		f := sb.String() + " " + []string{"w", "b"}[r.Intn(2)] + " - - 0 1"
+		f := sb.String() + " " + []string{"w", "b"}[turnIdx] + " - - 0 1"
 		pos, turn, _, _, err := fen.Decode(f)
 		if err != nil || pos == nil || pos.IsChecked(turn.Opponent()) {
 			continue
